@@ -23,10 +23,13 @@ import (
 	"regexp"
 	"sort"
 	"strings"
+	"sync"
 	"time"
 
 	"github.com/dapr/kit/concurrency/dir"
 	"github.com/dapr/kit/logger"
+
+	"verifharness/vk"
 )
 
 // nopLog satisfies logger.Logger for the three Infof calls of Write.
@@ -79,6 +82,7 @@ type history struct {
 	Writes []wset // 1..4
 	Recov  []wset // 1..2, after the crash
 	Crash2 int    // <0: none; else ordinal of the hook point of Recov[0] where the second process dies
+	Disk   bool   // scratch directory under $TMPDIR even when a memory file system is available (not part of the case identity)
 	Recov2 wset   // the write of the third process (only with Crash2>=0)
 }
 
@@ -271,8 +275,37 @@ func (r *runner) write(d *dir.Dir, tag string, ws wset, crashK int) (crashed boo
 	return
 }
 
-func newRunner(nested bool) (*runner, error) {
-	root, err := os.MkdirTemp("", "c18-")
+// scratchParent returns the directory under which the per-case scratch
+// directories are made. fast: a memory file system (/dev/shm) when there is one -
+// the crash-point runs are bound by system calls, and link/rename semantics are
+// those of the kernel's VFS either way; otherwise, and for the sections that ask
+// for it, $TMPDIR (a disk file system here).
+func scratchParent(fast bool) string {
+	if p := os.Getenv("VERIF_C18_SCRATCH"); p != "" {
+		return p
+	}
+	if fast && os.Getenv("TMPDIR") == "" {
+		shmOnce.Do(func() {
+			if d, err := os.MkdirTemp("/dev/shm", "c18-probe-"); err == nil {
+				os.Remove(d)
+				shmOK = true
+			}
+		})
+		if shmOK {
+			return "/dev/shm"
+		}
+	}
+	return os.TempDir()
+}
+
+var (
+	shmOnce sync.Once
+	shmOK   bool
+)
+
+func newRunner(nested bool, parent string) (*runner, error) {
+	// one scratch directory per case, unique per process and shard
+	root, err := os.MkdirTemp(parent, fmt.Sprintf("c18-s%02d-", vk.Shard()))
 	if err != nil {
 		return nil, err
 	}
@@ -299,7 +332,7 @@ func (r *runner) newDir() *dir.Dir {
 // herr is a problem of the harness itself (scratch directory, crash point not
 // reached).
 func runCase(h history, c crashAt) (res result, viol error, herr error) {
-	r, err := newRunner(h.Nested)
+	r, err := newRunner(h.Nested, scratchParent(!h.Disk))
 	if err != nil {
 		return res, nil, err
 	}
